@@ -137,7 +137,7 @@ async fn run_history(rep: &Reporter, dir: &std::path::Path, seed: u64, h: u64, t
     let mut sessions: Vec<Session> = vec![];
     let mut trace: Vec<String> = vec![];
     // idle mode: a fixed short scenario under small timeouts; otherwise seeded steps under long timeouts
-    let script: Vec<u64> = if idle_mode { vec![1, 2, 4, 8, 7, 0, 2, 4, 8, 11] } else { (0..r.range(6, 14)).map(|_| { let c = r.below(10); if c == 7 { 6 } else { c } }).collect() };
+    let script: Vec<u64> = if idle_mode { vec![1, 2, 4, 8, 7, 0, 2, 4, 8, 11] } else { (0..r.range(6, 14)).map(|_| { let c = r.below(12); if c == 7 { 6 } else if c >= 10 { 13 } else { c } }).collect() };
     for choice in script {
         let choice = if idle_mode && choice == 1 { 0 } else { choice };
         let force_h2 = idle_mode;
@@ -276,6 +276,17 @@ async fn run_history(rep: &Reporter, dir: &std::path::Path, seed: u64, h: u64, t
                 if s.udp_flows.insert(port) { model.udp += 1; }
                 model.up[1] += payload.len() as u64;
                 model.down[1] += payload.len() as u64;
+            }
+            13 => {
+                // connections that never become sessions: they must leave no trace in any gauge
+                let kind = r.below(4);
+                match kind {
+                    0 => { if let Ok(mut t) = TcpStream::connect(ep.addr).await { let _ = t.write_all(b"GET / HTTP/1.1\r\nHost: x\r\n\r\n").await; let mut b = [0u8; 64]; let _ = tokio::time::timeout(Duration::from_millis(300), t.read(&mut b)).await; } step = "failed-handshake not-tls".into(); }
+                    1 => { let o = tls_connect(ep.addr, Some("unknown.test"), &[b"h2"], Duration::from_secs(2)).await; drop(o); step = "failed-handshake unknown-sni".into(); }
+                    2 => { if let Ok(mut t) = TcpStream::connect(ep.addr).await { let hello = crate::props::c12::rustls_hello("main.test", &[b"h2"]).bytes; let _ = t.write_all(&hello[..hello.len() / 2]).await; tokio::time::sleep(Duration::from_millis(30)).await; } step = "failed-handshake client-gone-mid-hello".into(); }
+                    _ => { let o = tls_connect(ep.addr, Some("main.test"), &[b"spdy/3"], Duration::from_secs(2)).await; drop(o); step = "failed-handshake unknown-alpn".into(); }
+                }
+                tokio::time::sleep(Duration::from_millis(50)).await;
             }
             _ => {
                 // close a session: all its tunnels and UDP flows go with it
@@ -464,7 +475,7 @@ pub fn run(args: &Args) -> i32 {
         args,
         "exploration",
         "history = 6-14 steps against the real Core::listen on loopback (TLS, HTTP/1.1 and HTTP/2, metrics listener): open/close session, open tunnel to a \
-         transfer server, failed connect, asymmetric transfer (up N+8 / down M bytes), graceful close / reset, idle timeout, _udp2 datagrams on up to 3 flows, \
+         transfer server, failed connect, asymmetric transfer (up N+8 / down M bytes), graceful close / reset, idle timeout, connections that never become sessions (not TLS, unknown SNI, unknown ALPN, client gone mid-hello), _udp2 datagrams on up to 3 flows, \
          UDP expiry; after every step: quiescence (two identical snapshots), in-process gauges/counters vs the model, GET /metrics text vs in-process values, \
          /health-check. Plus (L1, virtual time) UDP byte accounting: the real udp_pipe::DuplexPipe between a mirror client and a scripted forwarder side that sends or drops each datagram as the harness chooses; the counter callback must add up to the bytes actually relayed. distinct_nontrivial = distinct step sequences / datagram plans.",
     ));
